@@ -26,8 +26,10 @@ CONSTANTS
   MAXOPS = 3
   GENBAL = 1000
   BFS = {2}
+  BATCH = "first"
+  OPS = {"dep", "dlg"}
   GEN = FALSE
 VIEW View
 INVARIANTS InvNonNeg
-PROPERTIES PropC19
+PROPERTIES PropC19 PropBatchIsTx
 CHECK_DEADLOCK FALSE
